@@ -611,6 +611,7 @@ def run(ctx):
     ctx.cov["evaluations"] += len(ctx_lines)
     if diffs > 10:
         ctx.failed_obligations.append(f"... and {diffs - 10} more decode differences")
+    end_to_end(ctx, shipped)
     ctx.notes["valid_pairs"] = len(valid)
     ctx.notes["malformed_streams"] = len(malformed)
     ctx.notes["error_kind_comparison"] = ("exact: the model mirrors the order of checks in decode_icc, so the "
@@ -621,8 +622,49 @@ def run(ctx):
         "to the final size check); the unrepaired witness stays in corpus/c18",
         "the entropy-coded layer of read_icc (enc_size limits, 41-context varint symbols) belongs to C04; "
         "here only get_icc_ctx is tied, as a pure function",
-        "JxlImage::original_icc() end to end is exercised once the codestream encoder exists; it hands the "
-        "result of decode_icc through unchanged (crates/jxl-oxide/src/lib.rs)",
+        "JxlImage::original_icc() end to end: profiles are embedded by the Lean stream encoder (ICC command "
+        "encoder + C04 entropy encoder, prefix and ANS) and read back through the real JxlImage",
         "non-minimal (padded) varints are exercised by the correspondence run only; the round-trip theorem "
         "uses the minimal-length varint writer",
     ]
+
+
+def end_to_end(ctx, shipped):
+    """embedded profile == JxlImage::original_icc(), through the whole codestream: Lean ICC command
+    encoder (all planner modes) + Lean entropy encoder (prefix / ANS) + image header + one frame"""
+    ctx.cargo_build(["img"])
+    rng = ctx.rng
+    profs = list(shipped)
+    for _ in range(10 if ctx.quick else 150):
+        base = bytearray(rng.choice(shipped))
+        for _ in range(rng.randint(1, 12)):
+            base[rng.randrange(len(base))] = rng.randrange(256)
+        profs.append(bytes(base))
+    for _ in range(10 if ctx.quick else 150):
+        profs.append(bytes(rng.randrange(256) for _ in range(rng.choice([1, 2, 127, 128, 129, 144, 300, 1000]))))
+    frame = ("frames 1 frame 0 1 1 0 0 0 0 0 0 0 0 0 0 1 0 0 0 0 wp 1 tr 0 pals 0 tree L 0 0 0 1 coded 0 "
+             "chans 3 2 2 1 2 3 4 2 2 0 0 0 0 2 2 9 8 7 6")
+    lines, meta = [], []
+    for p in profs:
+        ans, mode = rng.randrange(2), rng.randrange(8)
+        gray = 1 if p[16:20] == b"GRAY" else 0
+        fr = frame if not gray else frame.replace("chans 3 2 2 1 2 3 4 2 2 0 0 0 0 2 2 9 8 7 6", "chans 1 2 2 1 2 3 4")
+        lines.append(f"img 2 2 8 0 1 {gray} 1 0 0 icc {ans} {mode} {p.hex()} {fr}")
+        meta.append((p, ans, mode))
+    encs = run_lines_robust([MODEL_EXE, "enc"], lines, per_line_timeout=60)
+    todo = [(m, e.split()[1]) for m, e in zip(meta, encs) if e and e.startswith("ok")]
+    outs = run_lines_robust([ctx.harness_bin("img")], [f"icc {h}" for _, h in todo], per_line_timeout=30)
+    for ((p, ans, mode), h), o in zip(todo, outs):
+        ctx.case(("e2e", p, ans, mode), nontrivial=len(p) > 128)
+        ctx.count("e2e:" + ("ans" if ans else "prefix"))
+        rep = {"profile_hex": p.hex(), "codestream_hex": h, "coder": "ans" if ans else "prefix", "plan_mode": mode,
+               "how": "echo 'icc <codestream hex>' | harness/target/debug/img"}
+        if not o or o.startswith("panic") or o.startswith("crash") or o == "hang":
+            ctx.violation("original-icc-panicked", (o or "")[:200], rep, key="c18:e2e-panic")
+        elif o.startswith("err"):
+            # the image-level validation may reject a profile (e.g. channel count mismatch, malformed
+            # profile): that is not the ICC codec's business; counted, not a violation
+            ctx.count("e2e:image-rejected-profile")
+        elif o != "ok " + p.hex():
+            ctx.violation("original-icc-differs-from-embedded", o[:120], rep, key="c18:e2e")
+    ctx.notes["e2e_embedded_profiles"] = len(todo)
